@@ -15,6 +15,7 @@ import os
 import queue
 import re
 import shutil
+import subprocess
 import time
 from collections import namedtuple
 
@@ -1001,17 +1002,16 @@ class Node:
 
 
 class Runner:
-    """Runs the real tool.  Creating and unlinking files is by far the most expensive part on this filesystem, so output goes
-    into a small pool of re-used slot directories: before a run every file already in the slot gets mtime 0, after the run only
-    files with a fresh mtime (= written by this process) are read.  Every run is still a fresh process."""
+    """Runs the real tool (always a fresh process per run).
+
+    Measured on this box: creating / unlinking output files costs far more than the tool itself, and small file-system calls made
+    from many Python threads are 10x slower than from one (GIL hand-offs).  So (a) output directories are re-used: after a
+    directory has been read every file in it gets mtime 0, and after the next run only files with a fresh mtime (= written by that
+    process) count; (b) worker threads do nothing but start the tool, all reading / hashing happens in the calling thread."""
 
     def __init__(self, wd):
         self.wd = wd
-        self._count = itertools.count(1)
         self.executions = 0
-        self.slots = queue.Queue()
-        for i in range(NCPU):
-            self.slots.put(i)
 
     def write_src(self, tag, state):
         d = os.path.join(self.wd, "src", tag)
@@ -1024,36 +1024,69 @@ class Runner:
     def clean_slots(self):
         base = os.path.join(self.wd, "out")
         if os.path.isdir(base):
-            pmap(lambda d: shutil.rmtree(os.path.join(base, d), ignore_errors=True), sorted(os.listdir(base)))
+            subprocess.run(["rm", "-rf", base])
 
-    def once(self, seed, src, backend, keep=False, pristine=False):
-        """one fresh process; -> (rc, {relpath: sha} or None, stderr, tree bytes if keep)"""
-        slot = self.slots.get()
-        try:
-            out = os.path.join(self.wd, "out", "s%d-%s" % (slot, backend))
-            if pristine:
-                shutil.rmtree(out, ignore_errors=True)
-            elif os.path.isdir(out):
-                for root, _, files in os.walk(out):
-                    for f in files:
-                        os.utime(os.path.join(root, f), ns=(0, 0))
-            p = run_tool(backend, os.path.join(src, "lib.rs"), out, config_file=seed.config_file, configs=seed.configs(backend),
-                         cwd=self.wd)
-            self.executions = next(self._count)   # itertools.count is atomic under the GIL
-            if p.returncode != 0:
-                return p.returncode, None, p.stderr[-1500:], None
-            tree = {}
-            for root, _, files in os.walk(out):
-                for f in files:
-                    fp = os.path.join(root, f)
-                    if os.stat(fp).st_mtime_ns == 0:
-                        continue          # left over from an earlier run in this slot, not written by this process
+    @staticmethod
+    def _collect(out, keep_bytes):
+        """files written by the last run into `out` (fresh mtime); afterwards everything in `out` is marked stale"""
+        tree = {}
+        for root, _, files in os.walk(out):
+            for f in files:
+                fp = os.path.join(root, f)
+                if os.stat(fp).st_mtime_ns != 0:
                     with open(fp, "rb") as fh:
                         tree[os.path.relpath(fp, out)] = fh.read()
-            hashes = {k: sha(v) for k, v in tree.items()}
-            return 0, hashes, p.stderr[-500:], (tree if keep else None)
-        finally:
-            self.slots.put(slot)
+                    os.utime(fp, ns=(0, 0))
+        hashes = {k: sha(v) for k, v in tree.items()}
+        return hashes, (tree if keep_bytes else None)
+
+    @staticmethod
+    def _mark_stale(out):
+        for root, _, files in os.walk(out):
+            for f in files:
+                os.utime(os.path.join(root, f), ns=(0, 0))
+
+    def batch(self, tasks, runs):
+        """tasks: [(seed, src_dir, backend)]; every task is run `runs` times, each in a fresh process.
+        -> per task a list of (rc, {relpath: sha} | None, stderr tail)"""
+        def job(t):
+            seed, src, backend = tasks[t]
+            res = []
+            for r in range(runs):
+                out = os.path.join(self.wd, "out", "%d_%d" % (t, r))
+                p = run_tool(backend, os.path.join(src, "lib.rs"), out, config_file=seed.config_file, configs=seed.configs(backend),
+                             cwd=self.wd)
+                res.append((p.returncode, p.stderr))
+            return res
+
+        raw = pmap(job, range(len(tasks)))
+        results = []
+        for t, res in enumerate(raw):
+            per = []
+            for r, (rc, err) in enumerate(res):
+                self.executions += 1
+                out = os.path.join(self.wd, "out", "%d_%d" % (t, r))
+                if rc != 0:
+                    self._mark_stale(out)
+                    per.append((rc, None, err[-1500:]))
+                else:
+                    hashes, _ = self._collect(out, False)
+                    per.append((0, hashes, err[-500:]))
+            results.append(per)
+        return results
+
+    def once(self, seed, src, backend, keep=False, pristine=True):
+        """one fresh process into a brand-new directory (re-checks, called from the main thread only)
+        -> (rc, {relpath: sha} or None, stderr, tree bytes if keep)"""
+        out = os.path.join(self.wd, "chk-out")
+        shutil.rmtree(out, ignore_errors=True)
+        p = run_tool(backend, os.path.join(src, "lib.rs"), out, config_file=seed.config_file, configs=seed.configs(backend),
+                     cwd=self.wd)
+        self.executions += 1
+        if p.returncode != 0:
+            return p.returncode, None, p.stderr[-1500:], None
+        hashes, tree = self._collect(out, keep)
+        return 0, hashes, p.stderr[-500:], tree
 
 
 def tree_digest(h):
@@ -1100,16 +1133,7 @@ class Explorer:
         jobs = [(n, b) for n in nodes for b in BACKENDS]
         # sources are written before any worker starts: workers only read them
         src = {n.key: self.runner.write_src("c%d" % k, n.state) for k, n in enumerate(nodes)}
-
-        def job(nb):
-            n, b = nb
-            runs = []
-            for r in range(RUNS_PER_STATE):
-                rc, hashes, err, _ = self.runner.once(n.seed, src[n.key], b)
-                runs.append((rc, hashes, err))
-            return runs
-
-        results = pmap(job, jobs)
+        results = self.runner.batch([(n.seed, src[n.key], b) for n, b in jobs], RUNS_PER_STATE)
         for (n, b), runs in zip(jobs, results):
             n.rerun[b] = [tree_digest(h) if rc == 0 else "FAILED(%s)" % rc for rc, h, _ in runs]
             if len(set(n.rerun[b])) > 1:
@@ -1272,8 +1296,8 @@ class Explorer:
         for b in BACKENDS:
             rc, hashes, err, _ = self.runner.once(seed, src, b, pristine=True)
             if hashes != root.out[b] and len(set(root.rerun[b])) == 1:
-                again = [self.runner.once(seed, src, b, pristine=True)[1] for _ in range(3)]
-                slot = [self.runner.once(seed, src, b)[1] for _ in range(3)]
+                again = [self.runner.once(seed, src, b)[1] for _ in range(3)]
+                slot = [h for _, h, _ in self.runner.batch([(seed, src, b)], 3)[0]]
                 if all(h == hashes for h in again) and all(h == root.out[b] for h in slot):
                     raise MachineryError("slot re-use changes what is observed for seed %s backend %s" % (seed.name, b))
                 self.rerun_reported.add((b, root.key))
